@@ -383,7 +383,16 @@ def run_case(case):
     if h.build_error:
         # a builder model that cannot be computed (e.g. instance too small for the services' base consumption) is not a violation
         C["build_refused"] = 1
-        if "has available capacity of" not in h.build_error and "server has available capacity" not in h.build_error:
+        api_fails = False
+        if kind == "cloud":
+            # some instance types make the packaged Boavizta API itself fail (third-party, trusted base): not computable at all
+            try:
+                from efootprint.builders.hardware.boaviztapi_utils import call_boaviztapi
+                call_boaviztapi(url="https://api.boavizta.org/v1/cloud/instance", params={"provider": choice[0], "instance_type": choice[1]})
+            except Exception:
+                api_fails = True
+                C["packaged_api_fails_for_instance_type"] = 1
+        if not api_fails and "has available capacity of" not in h.build_error and "server has available capacity" not in h.build_error:
             V.append({"kind": "builder model could not be built", "error": h.build_error, **ctx})
         return {"counters": C, "classes": sorted(classes), "violations": V, "nontrivial": False, "digest": hashlib.md5(repr(case["choice"]).encode()).hexdigest()[:16]}
     check_rules(h.spec, h.objs, V, C, ctx)
